@@ -494,6 +494,71 @@ def server_case(ctx, seed, nclients, mode, clock='steady'):
                 pass
 
 
+def concurrent_ports_case(ctx, seed, nports=3, nmsgs=400):
+    """Several socket ports of one process, each iterated by its own thread while the peers write
+    (free-running threads with a switch interval of a microsecond): every port yields exactly its own
+    peer's messages, in order, uncorrupted."""
+    import sys
+    import threading
+    rng = random.Random(seed)
+    case = {'kind': 'concurrent-ports', 'seed': seed, 'ports': nports, 'messages_each': nmsgs}
+    pairs = [socket.socketpair() for _ in range(nports)]
+    ports = [SocketPort(f'p{i}', 1, conn=a) for i, (a, b) in enumerate(pairs)]
+    sent = [[Message('note_on', channel=i, note=rng.randrange(128), velocity=rng.randrange(128)) if k % 5 else
+             Message('sysex', data=(i, k % 128, rng.randrange(128))) for k in range(nmsgs)] for i in range(nports)]
+    got = [[] for _ in range(nports)]
+    errors = []
+    old = sys.getswitchinterval()
+    sys.setswitchinterval(1e-6)
+
+    def reader(i):
+        try:
+            for m in ports[i]:
+                got[i].append(m)
+        except Exception as exc:
+            errors.append(f'port {i}: {type(exc).__name__}: {exc}')
+
+    def writer(i):
+        try:
+            b = pairs[i][1]
+            data = b''.join(bytes(m.bytes()) for m in sent[i])
+            pos = 0
+            while pos < len(data):
+                k = rng.randrange(1, 9)
+                b.sendall(data[pos:pos + k])
+                pos += k
+            b.close()
+        except Exception as exc:
+            errors.append(f'writer {i}: {type(exc).__name__}: {exc}')
+    try:
+        ths = [threading.Thread(target=reader, args=(i,), daemon=True) for i in range(nports)] + \
+              [threading.Thread(target=writer, args=(i,), daemon=True) for i in range(nports)]
+        for t in ths:
+            t.start()
+        for t in ths:
+            t.join(60.0)
+        alive = [t for t in ths if t.is_alive()]
+        if alive:
+            ctx.undecided('concurrent-ports: threads still running after 60 s')
+            return
+        ctx.check('iteration ends without exception', not errors, 'concurrent-ports-raised', case, errors[:3])
+        bad = [i for i in range(nports) if got[i] != sent[i]]
+        ctx.check('delivered == complete messages before the cut', not bad, 'concurrent-ports-differ', case,
+                  lambda: {'ports_with_differences': bad, 'first': next(({'port': i, 'index': k, 'got': g.hex(), 'want': w.hex()}
+                                                                       for i in bad for k, (g, w) in enumerate(zip(got[i], sent[i])) if g != w), None),
+                           'lengths': [[len(got[i]), len(sent[i])] for i in bad]})
+        ctx.check('port reports closed after disconnect', all(p.closed for p in ports), 'concurrent-ports-not-closed', case, None)
+    finally:
+        sys.setswitchinterval(old)
+        for p in ports:
+            try:
+                p.close()
+            except Exception:
+                pass
+        for a, b in pairs:
+            b.close()
+
+
 def tcp_state(sock):
     import struct
     return struct.unpack('B', sock.getsockopt(socket.IPPROTO_TCP, socket.TCP_INFO, 8)[:1])[0]
@@ -833,6 +898,10 @@ def run(ctx):
         reply_to_departed_peer_case(ctx, f'{ctx.seed}:{ctx.shard}:e{j}', sends_after_reset=1 + (j + ctx.shard) % 3)
         ctx.nontrivial(('departed-write', ctx.seed, ctx.shard, j))
         n += 1
+    if ctx.shard in (1 % ctx.nshards, 9 % ctx.nshards):
+        concurrent_ports_case(ctx, f'{ctx.seed}:{ctx.shard}:conc')
+        ctx.nontrivial(('concurrent-ports', ctx.seed, ctx.shard))
+        n += 1
     for ci, count in enumerate((1023, 1025, 4095, 4097, 6000)):
         if ci % ctx.nshards == (ctx.shard + 5) % ctx.nshards:
             burst_then_disconnect_case(ctx, count)
@@ -851,6 +920,9 @@ def run(ctx):
 
 
 def replay(ctx, case):
+    if case.get('kind') == 'concurrent-ports':
+        concurrent_ports_case(ctx, case['seed'], case['ports'], case['messages_each'])
+        return
     k = case['kind']
     if k == 'cut':
         msgs = [Message.from_hex(h) for h in case['msgs']]
